@@ -1,4 +1,4 @@
-import Proofs.C17.PowRound
+import Proofs.C17.PowCanon
 import Proofs.C17.Merkle
 import Proofs.C17.Golomb
 import Model.C17.Bip158
@@ -56,6 +56,30 @@ theorem target_roundtrip_never_rounds_up (t : Bytes) (ht : t.length ≤ 32) :
       Gen.Pow.is_negative_bits b = .ok false ∧ b.length = 4 ∧ t'.length = 32 ∧
       ofBE t' ≤ ofBE t ∧ ofBE t < ofBE t' + 256 ^ ((b.headD 0).toNat - 3) :=
   roundtrip_bytes t ht
+
+/-- `bits_from_target ∘ target_from_bits = id` on canonical bits (`Btc.Pow.canonical`: zero, or a
+    significand `0x008000 ≤ s < 0x800000` — no sign bit, minimal exponent — whose bytes dropped by an
+    exponent below 3 are zero). -/
+theorem canonical_bits_roundtrip (b t' : Bytes) (hb4 : b.length = 4)
+    (hc : canonical (b.headD 0).toNat (ofBE (b.drop 1)))
+    (ht : Gen.Pow.target_from_bits b = .ok t') :
+    Gen.Pow.bits_from_target t' = .ok b := by
+  obtain ⟨x0, x1, x2, x3, rfl⟩ := len4 b hb4
+  exact canonical_roundtrip4 x0 x1 x2 x3 hc t' ht
+
+/-- …and canonical is exactly the image: every output of `bits_from_target` is canonical. -/
+theorem bits_from_target_canonical (t b : Bytes) (ht : t.length ≤ 32) (hb : Gen.Pow.bits_from_target t = .ok b) :
+    canonical (b.headD 0).toNat (ofBE (b.drop 1)) := by
+  have hv : ofBE t < 256 ^ 32 := Nat.lt_of_lt_of_le (ofBE_lt t) (Nat.pow_le_pow_right (by omega) ht)
+  obtain ⟨b1, b2⟩ := compactOf_bounds _ hv
+  rw [bits_from_target_eq t ht] at hb
+  cases hb
+  have hc := compactOf_canonical (ofBE t)
+  simp only [List.headD_cons, List.drop_one, List.tail_cons]
+  have he : (UInt8.ofNat (compactOf (ofBE t)).1).toNat = (compactOf (ofBE t)).1 := by
+    simp [UInt8.toNat_ofNat']; omega
+  rw [he, ofBE_beBytes, Nat.mod_eq_of_lt (by norm_num; omega)]
+  exact hc
 
 /-! ## T8 — retarget and work -/
 
@@ -255,6 +279,7 @@ example : Gen.Pow.is_negative_bits [0x04, 0x92, 0x34, 0x56] = .ok true := by dec
 example : Gen.Pow.target_from_bits [0x23, 0x00, 0x00, 0x01] = .error .value := by decide
 example : Gen.Pow.bits_from_target [0x80] = .ok [0x02, 0x00, 0x80, 0x00] := by decide
 example : (CorePow.setCompact 0x1d00ffff).overflow = false := by decide
+example : canonical 0x1d 0x00ffff := Or.inr (by decide)
 example : Gen.Pow.block_work [0x1d, 0x80, 0xff, 0xff] = .error .value := by decide
 
 end Props.C17
